@@ -77,7 +77,9 @@ structure KSt where
   icbs : List ICb := []                        -- internal callbacks; kernel handler id = 2000000 + index
   sends : List String := []
   wrOff : List (String × Nat) := []            -- "<socket>/<stream>" ↦ next offset to write
-  wrKeys : List (Nat × String) := []           -- write handler ↦ its offset key                    -- capture log (reversed)
+  wrKeys : List (Nat × String) := []
+  hidden : List String := []                   -- sockets of a socket-returning accept, not yet handed to the program
+  pendNew : List (Nat × String) := []          -- accept handler ↦ the socket it will hand over           -- write handler ↦ its offset key                    -- capture log (reversed)
   pend : List (Nat × Nat) := []     -- timer ↦ handler id of the wait whose slot may be busy
   out  : List String := []          -- reversed
   stepNo : Nat := 0                 -- event boundaries seen (step hook)
@@ -283,10 +285,73 @@ def applyNEffs (p : KParams) : Nat → List NEff → KSt → KSt
         match s.itimers.lookup (owner, slot) with
         | some t => { s with k := step p s.k (.cancel t) }
         | none => s
+      | .tcpWrite sock h =>
+        match (s.net.tcp? sock).bind (·.sendH) with
+        | some op =>
+          if op.h != h then s else
+          let s := { s with net := match s.net.tcp? sock with
+                                  | some t => s.net.setTcp sock { t with sendH := none }
+                                  | none => s.net }
+          tcpWriteRun p f sock op s
+        | none => s
+      | .tcpWake sock =>
+        -- maybe_wakeup_writer(): re-run the blocked write
+        match (s.net.tcp? sock).bind (·.sendH) with
+        | some op =>
+          let s := { s with net := match s.net.tcp? sock with
+                                  | some t => s.net.setTcp sock { t with sendH := none }
+                                  | none => s.net }
+          tcpWriteRun p f sock op s
+        | none => s
+      | .tcpResend sock =>
+        let n0 := ((s.net.tcp? sock).map (·.resend.length)).getD 0
+        tcpResendRun p f sock n0 s
+      | .tcpAckPost sock wb acked =>
+        let r := s.net.tcpAckPost s.tp sock wb acked
+        let s := { s with net := r.1 }
+        if r.2 then applyNEffs p f [.tcpWake sock] s else s
       | .pcapUdp t src dst pl => { s with sends := ("udp t=" ++ toString t ++ " " ++ src.toString ++ ">" ++ dst.toString ++ " len=" ++ toString pl.length) :: s.sends }
       | .pcapTcp t src dst sq pl => { s with sends := ("tcp t=" ++ toString t ++ " " ++ src.toString ++ ">" ++ dst.toString ++ " seq=" ++ toString sq ++ " len=" ++ toString pl.length) :: s.sends }
     applyNEffs p (f + 1) rest s
 termination_by f effs _ => (f, effs.length)
+
+/-- `async_write_some_impl`: checks, the segmentation loop (each packet is forwarded — and
+    possibly handed back by the first hop — before the window test), then the handler -/
+def tcpWriteRun (p : KParams) : Nat → String → WriteOp → KSt → KSt
+  | 0, _, _, s => { s with bad := true }
+  | f + 1, sock, op, s =>
+    match s.net.tcpWritePrep sock op.bufs with
+    | .error e =>
+      let r := s.net.tcpWriteFinish sock op (.error e)
+      applyNEffs p f r.2 { s with net := r.1 }
+    | .ok (hops, segs) =>
+      let (s, acc) := tcpSegLoop p f sock hops segs 0 s
+      let r := s.net.tcpWriteFinish sock op (.ok acc)
+      applyNEffs p f r.2 { s with net := r.1 }
+termination_by f _ _ _ => (f, 0)
+
+def tcpSegLoop (p : KParams) : Nat → String → List String → List (List UInt8) → Nat → KSt → KSt × Nat
+  | 0, _, _, _, acc, s => ({ s with bad := true }, acc)
+  | _, _, _, [], acc, s => (s, acc)
+  | f + 1, sock, hops, seg :: rest, acc, s =>
+    let r := s.net.tcpSendSeg s.k.now sock hops seg
+    let s := applyNEffs p f r.2 { s with net := r.1 }
+    let acc := acc + seg.length
+    if s.net.tcpWindowFull sock then (s, acc)
+    else tcpSegLoop p (f + 1) sock hops rest acc s
+termination_by f _ _ segs _ _ => (f, segs.length)
+
+/-- the ACK path's retransmission loop, at most `n` packets (those queued when the ACK came) -/
+def tcpResendRun (p : KParams) : Nat → String → Nat → KSt → KSt
+  | 0, _, _, s => { s with bad := true }
+  | _, _, 0, s => s
+  | f + 1, sock, n + 1, s =>
+    match s.net.tcpResendOne s.k.now sock with
+    | none => s
+    | some r =>
+      let s := applyNEffs p f r.2 { s with net := r.1 }
+      tcpResendRun p (f + 1) sock n s
+termination_by f _ n _ => (f, n)
 end
 
 def netFuel : Nat := 256
@@ -358,6 +423,7 @@ def doNetOp (p : KParams) (ctx : String) (op : List String) (s : KSt) : Option K
     | [name, m] =>
       let kind := name.front
       if !(kind == 's' || kind == 'a' || kind == 'u') || !((name.drop 1).toString.toNat?).isSome then none else
+      if s.hidden.contains name then some (s.emit ("C " ++ ctx ++ " " ++ joinSp op ++ " => skipped")) else
       let text := joinSp op
       let res := fun (s : KSt) (r : String) => s.emit ("C " ++ ctx ++ " " ++ text ++ " => " ++ r)
       let now := s.k.now
@@ -428,6 +494,8 @@ def doNetOp (p : KParams) (ctx : String) (op : List String) (s : KSt) : Option K
           | "destroy", _ =>
             let s := if isAcc then fx (s.net.accClose now name) s
                      else fx ((s.net.setTcp name { t with chan := none }).tcpClose now name) s
+            -- the connect timer is destroyed with the socket: a parked refusal is delivered now
+            let s := applyNEffs p netFuel [.cancelTimer name 0] s
             some (res { s with net := { s.net with tcps := s.net.tcps.filter (·.1 != name) } } "-")
           | "open", v :: _ => some (res (fx (s.net.tcpOpen now name (v != "v6")) s) "ok")
           | "bind", e :: _ =>
@@ -455,7 +523,7 @@ def doNetOp (p : KParams) (ctx : String) (op : List String) (s : KSt) : Option K
               let data := (List.range len).map (fun i => streamByte stream (off + i))
               let bufs := splitBy (cutSizes len ((findNat? rest "bufs").getD 1)) data
               let s := { s with wrKeys := (hn, key) :: s.wrKeys }
-              some (res (fx (s.net.tcpAsyncWrite now name { h := hn, bufs := bufs, stream := stream, off := off }) s) "-")
+              some (res (fx (s.net.tcpAsyncWrite name { h := hn, bufs := bufs, stream := stream, off := off }) s) "-")
           | "read", h :: rest =>
             match hOf h with
             | none => some (res s "bad-op")
@@ -499,7 +567,9 @@ def doNetOp (p : KParams) (ctx : String) (op : List String) (s : KSt) : Option K
             if (s.net.tcp? peer).isNone then some (res s "skipped") else
             (hOf h).map (fun hn => res (fx (s.net.accAsyncAccept now name (.into hn peer true)) s) "-")
           | "accept_new", nn :: h :: _ =>
-            (hOf h).map (fun hn => res (fx (s.net.accAsyncAccept now name (.fresh hn nn)) s) "-")
+            (hOf h).map (fun hn =>
+              let s := { s with hidden := nn :: s.hidden, pendNew := (hn, nn) :: s.pendNew }
+              res (fx (s.net.accAsyncAccept now name (.fresh hn nn)) s) "-")
           | _, _ => some (res s "bad-op")
     | _ => none
 
@@ -623,6 +693,10 @@ def pollLoop (p : KParams) (scn : Scn) : Nat → KSt → Nat → KSt × Nat
               { s with wrOff := (key, (s.wrOff.lookup key).getD 0 + n) :: s.wrOff.filter (·.1 != key) }
             | none => s
           let s := s.clearH t.h
+          -- a socket-returning accept hands its socket to the program now
+          let s := match s.pendNew.lookup t.h with
+            | some nn => { s with hidden := s.hidden.filter (· != nn), pendNew := s.pendNew.filter (·.1 != t.h) }
+            | none => s
           doOps p scn 8 h (scn.ops h) s
       -- step hook `after_handler`: scenario ops placed at this event boundary
       let s := { s with stepNo := s.stepNo + 1 }
